@@ -44,9 +44,10 @@ Definition gen_row (k : kind) (e : elem) (delta plim : Q) : box :=
   let qmax := lim_hi inv (e_min_q e) (e_max_q e) delta plim in
   match k with
   | KGen =>
-      (* :210 PG = p_mw * scaling ; :190-200 a non-controllable gen is fixed at p_mw (NOT p_mw * scaling) *)
+      (* :210 PG = p_mw * scaling ; :190-200 a non-controllable gen is fixed at p_mw * scaling *)
       let fixed := match e_ctrl e with Some false => true | _ => false end in
-      {| PMIN := if fixed then qsub (e_p e) delta else pmin; PMAX := if fixed then qadd (e_p e) delta else pmax;
+      let sp := qmul (e_p e) (e_scaling e) in
+      {| PMIN := if fixed then qsub sp delta else pmin; PMAX := if fixed then qadd sp delta else pmax;
          QMIN := qmin; QMAX := qmax; PG := qmul (e_p e) (e_scaling e); QG := 0 |}
   | KExt => {| PMIN := pmin; PMAX := pmax; QMIN := qmin; QMAX := qmax; PG := 0; QG := 0 |}
   | _ =>
@@ -54,6 +55,9 @@ Definition gen_row (k : kind) (e : elem) (delta plim : Q) : box :=
       {| PMIN := pmin; PMAX := pmax; QMIN := qmin; QMAX := qmax;
          PG := qmul (qmul s (e_p e)) (e_scaling e); QG := qmul (qmul s (e_q e)) (e_scaling e) |}
   end.
+
+(* before the repair a non-controllable gen was pinned to the unscaled p_mw *)
+Definition fixed_box_old (e : elem) (delta : Q) : Q * Q := (qsub (e_p e) delta, qadd (e_p e) delta).
 
 Definition in_range (lo hi x : Q) : bool := qleb lo x && qleb x hi.
 
@@ -85,26 +89,35 @@ Definition pf_dcline (d : dcl) : dcgens :=
           from_lo := qopp (d_max_p d); from_hi := qopp 0 |}
   else {| g_to := qopp p; g_from := ploss; to_lo := qopp (d_max_p d); to_hi := 0;
           from_lo := qopp 0; from_hi := qopp (qopp (d_max_p d)) |}.
-(* OPF model, optimal_powerflow.py _add_dcline_constraints: (1 + loss%/100) Pg[first of pair] + Pg[second] = -loss_mw,
-   first of the pair = the to-bus gen (created first) *)
+(* OPF model, optimal_powerflow.py _add_dcline_constraints (repaired):
+   (1 - loss%/100) Pg[sending end gen] + Pg[receiving end gen] = -loss_mw, sending end = from bus iff p_mw > 0 *)
 Definition opf_lhs (d : dcl) (pg_to pg_from : Q) : Q :=
-  qadd (qmul (qadd 1 (qdiv (d_loss_pct d) 100)) pg_to) pg_from.
+  let k := qsub 1 (qdiv (d_loss_pct d) 100) in
+  if qltb 0 (d_p d) then qadd (qmul k pg_from) pg_to else qadd (qmul k pg_to) pg_from.
 Definition opf_rhs (d : dcl) : Q := qopp (d_loss_mw d).
+(* before the repair: (1 + loss%/100) Pg[to-bus gen] + Pg[from-bus gen] = -loss_mw *)
+Definition opf_lhs_old (d : dcl) (pg_to pg_from : Q) : Q :=
+  qadd (qmul (qadd 1 (qdiv (d_loss_pct d) 100)) pg_to) pg_from.
 
-(* rows of the constraint matrix as (coefficient on the to gen, coefficient on the from gen, rhs);
-   ndc = number of in-service dclines; the rows use the LAST ndc gen pairs but the loss data of the FIRST ndc
-   dclines, and the right-hand side has one entry per dcline (in service or not): any mixture raises *)
-Definition dcline_rows (ds : list dcl) : option (list (Q * Q * Q)) :=
+(* rows of the constraint matrix as (coefficient on the to gen, coefficient on the from gen, rhs): one row per
+   in-service dcline, built from its own data *)
+Definition dc_row (d : dcl) : Q * Q * Q :=
+  let k := qsub 1 (qdiv (d_loss_pct d) 100) in
+  if qltb 0 (d_p d) then (1, k, qopp (d_loss_mw d)) else (k, 1, qopp (d_loss_mw d)).
+Definition dcline_rows (ds : list dcl) : option (list (Q * Q * Q)) := Some (map dc_row (filter d_in ds)).
+(* before the repair: the rows used the LAST ndc gen pairs but the loss data of the FIRST ndc dclines and a
+   right-hand side with one entry per dcline: any mixture of in-service and out-of-service dclines raised *)
+Definition dcline_rows_old (ds : list dcl) : option (list (Q * Q * Q)) :=
   let ndc := List.length (filter d_in ds) in
   if Nat.eqb ndc 0 then Some []
   else if Nat.eqb ndc (List.length ds)
   then Some (map (fun d => (qadd 1 (qdiv (d_loss_pct d) 100), 1, qopp (d_loss_mw d))) ds)
   else None.
 
-(* guards *)
-Definition G16gen (e : elem) : bool :=
+(* guards of the rules before the repairs *)
+Definition G16gen_old (e : elem) : bool :=
   match e_ctrl e with Some false => qeqb (e_scaling e) 1 || qeqb (e_p e) 0 | _ => true end.
-Definition G16dc (d : dcl) : bool := qeqb (d_loss_pct d) 0.
+Definition G16dc_old (d : dcl) : bool := qeqb (d_loss_pct d) 0.
 
 (* ---- output *)
 Definition obox (b : box) : out := OL [oq (PMIN b); oq (PMAX b); oq (QMIN b); oq (QMAX b); oq (PG b); oq (QG b)].
